@@ -208,6 +208,21 @@ theorem C05_block_events_cover {α : Type} [Arith α] (cs : CharSpec) (ext : Ext
     CoveredBy (runBlock cs ext oldStyle b evs none).1 t :=
   runBlock_coverAll_wf cs ext oldStyle b evs hw t ht hc
 
+/-- **Steps with components, every token.**  `C05_events_cover_partial` without the hypothesis
+    "no `@ # ~`": for every block of adjacent tokens that does not start with `>>`, `=` or `>` and is
+    not blank — a step with any mixture of text, ingredients, cookware, timers, well-formed or not —
+    EVERY token that is not a comment (words, numbers, punctuation, whitespace, line breaks, bodies
+    of escapes, component markers, braces, quantities, notes) lies inside the span of a `Text`,
+    `Ingredient`, `Cookware` or `Timer` event, for every extension set and every previous queue; no
+    hypothesis on diagnostics. -/
+theorem C05_step_events_cover {α : Type} [Arith α] (cs : CharSpec) (ext : Ext) (oldStyle : Bool)
+    (b : List Tok) (evs : Array (Ev α)) (hw : WF b)
+    (hhead : ∀ t, b.head? = some t → t.kind ≠ .metaStart ∧ t.kind ≠ .eq ∧ t.kind ≠ .textStep)
+    (hnb : b.all (fun t => isEmptyTok t.kind) = false)
+    (t : Tok) (ht : t ∈ b) (hb : HasBody t) :
+    CoveredBy (runBlock cs ext oldStyle b evs none).1 t :=
+  runBlock_step_coverB cs ext oldStyle b evs hw hhead hnb t ht hb
+
 /-- … and what earlier blocks put into the queue stays covered -/
 theorem C05_block_keeps_covered {α : Type} [Arith α] (cs : CharSpec) (ext : Ext) (oldStyle : Bool)
     (b : List Tok) (evs : Array (Ev α)) (panic : Option String) (t : Tok) (h : CoveredBy evs t)
@@ -274,6 +289,12 @@ example : Wordy toyCharSpec ⟨.escaped, ['\\', 'x'], 5⟩ :=
   ⟨⟨'x', by decide, by decide⟩, by decide, by decide, by decide, by decide, by decide⟩
 example : ¬ Wordy toyCharSpec ⟨.ws, [' '], 4⟩ := fun h => h.2.2.1 rfl
 example : ¬ Wordy toyCharSpec ⟨.lineComment, "-- c".toList, 4⟩ := fun h => h.notComment.1 rfl
+
+/-! a step with a component: `a@b` (word, marker, word) satisfies the hypotheses of
+    `C05_step_events_cover`; the marker token has a body -/
+example : WF [⟨.word, ['a'], 0⟩, ⟨.at, ['@'], 1⟩, ⟨.word, ['b'], 2⟩] :=
+  ⟨by simp, ⟨by simp [baseOff, Chain, Tok.stop, utf8Len]; decide, by intro t ht hk; simp at ht; rcases ht with rfl | rfl | rfl <;> simp at hk⟩⟩
+example : HasBody ⟨.at, ['@'], 1⟩ := ⟨by simp, by simp, by simp [tokBodyStart, Tok.stop, utf8Len]; decide⟩
 
 /-! `Mix @salt{1} -- c`: the events carry the spans 0..4 (text), 4..12 (ingredient: marker, name,
     braces, quantity), 12..13 (text); the comment token starts at byte 13.  The `c` at byte 16 is
